@@ -746,3 +746,51 @@ impl<T> Iterator for RawDrain<'_, T> {
 
 impl<T> ExactSizeIterator for RawDrain<'_, T> {}
 impl<T> FusedIterator for RawDrain<'_, T> {}
+
+/// Snapshot of the two-table state, for external verification harnesses.
+#[cfg(griddle_verif)]
+#[derive(Debug, Clone, Copy, PartialEq, Eq)]
+pub struct VerifState {
+    /// Number of elements moved per inserting call.
+    pub r: usize,
+    /// Number of elements in the main table.
+    pub main_len: usize,
+    /// `capacity()` of the main table (elements + growth left).
+    pub main_cap: usize,
+    /// Number of buckets of the main table.
+    pub main_buckets: usize,
+    /// If a resize is pending: (elements in the old table, its buckets, what the cached iterator
+    /// believes is left).
+    pub old: Option<(usize, usize, usize)>,
+}
+
+#[cfg(griddle_verif)]
+impl<T> RawTable<T> {
+    pub(crate) fn verif_state(&self) -> VerifState {
+        VerifState {
+            r: R,
+            main_len: self.table.len(),
+            main_cap: self.table.capacity(),
+            main_buckets: self.table.buckets(),
+            old: self
+                .leftovers
+                .as_ref()
+                .map(|lo| (lo.table.len(), lo.table.buckets(), lo.items.len())),
+        }
+    }
+
+    /// Calls `f(in_main, element)` for the main table's elements in its iteration order, then
+    /// for what the cached iterator over the old table would still yield, in that order.
+    pub(crate) fn verif_for_each(&self, mut f: impl FnMut(bool, &T)) {
+        unsafe {
+            for b in self.table.iter() {
+                f(true, b.as_ref());
+            }
+            if let Some(ref lo) = self.leftovers {
+                for b in lo.items.clone() {
+                    f(false, b.as_ref());
+                }
+            }
+        }
+    }
+}
